@@ -385,7 +385,7 @@ func (ex *Exec) libModelVals(full string, callee *types.Func, recv *Val, args []
 			p := ex.get(ex.st, "$bld."+id+".len")
 			s := args[0].T
 			k := Const("k", SInt)
-			ex.assume(Forall([]string{"k"}, Imp(And(Le(I(0), k), Lt(k, SLen(s))), Eq(App("memB", SInt, base, Add(p, k)), App("memB", SInt, SBase(s), Add(SOff(s), k)))), App("memB", SInt, base, Add(p, k))))
+			ex.assume(Forall([]string{"k"}, Imp(And(Le(p, k), Lt(k, Add(p, SLen(s)))), Eq(App("memB", SInt, base, k), App("memB", SInt, SBase(s), Add(SOff(s), Sub(k, p))))), App("memB", SInt, base, k)))
 			ex.st.env["$bld."+id+".len"] = Add(p, SLen(s))
 			return nil, true
 		case "Bytes":
